@@ -543,6 +543,13 @@ def run(ctx, repo):
                 if not isinstance(std, (int, float)) or std <= 0:
                     ctx.finding('R3', '%s::%s %s::standard' % (rel, g, r[0]), rel, None, 'running row %s %s has standard %r' % (g, r[0], std))
                 prev = (r[0], dist)
+            # the end-of-table rule grades every longer distance with the LAST row: it must be the longest run of the table
+            dists = [r[1] for r in rows[start:] if isinstance(r[1], (int, float))]
+            if dists and rows[-1][1] != max(dists):
+                ctx.finding('R3', '%s::%s::last row is not the longest run' % (rel, g), rel, None,
+                            'the last row of the %s table is %s (%s km) but the longest tabulated run is %s km: distances beyond the table are graded '
+                            'with the last row (find_row_by_distance clamps to len(table) - 1), i.e. with the factors of a %s km event'
+                            % (g, rows[-1][0], rows[-1][1], max(dists), rows[-1][1]), rows[-1][0])
     # ---- R8 the km column of every running row is the distance its code denotes (get_distance of the code, by constant folding of the
     # pure function; it is an approximation by docstring, so 0.5 % is allowed): the scan of find_row_by_distance brackets by this column
     from .. import fold as _fold
